@@ -86,7 +86,7 @@ GoodAtoms(kind) ==
       [] kind = "timestamp" -> {"epoch", "nanos", "pre1970", "y0001", "y9999"}
       [] kind = "date"    -> {"d0001", "d0999", "leap", "leap400", "d9999"}      \* leap400: 2000-02-29 (a century that IS a leap year)
       [] kind = "decimal" -> {"zero", "neg", "big", "small", "exp", "int"}
-      [] kind = "enum"    -> {"unspec", "red", "green"}
+      [] kind = "enum"    -> {"unspec", "red", "green", "infra"}
       [] OTHER -> {}
 
 \* atoms outside the representable range: C08 well-formedness only (encoder must fail or emit valid JSON)
@@ -481,7 +481,13 @@ ElemFaults(kind) ==
       [] kind = "enum" -> ShapeFaults \cup {BoolFault, NumFault}
             \cup { [cls |-> "unknown-enum:name", node |-> Bad(kind, "nope", "str", "short")],
                    [cls |-> "unknown-enum:prefixed", node |-> Bad(kind, "pnope", "str", "short")],
-                   [cls |-> "unknown-enum:lowercase", node |-> Bad(kind, "lower", "str", "short")] }
+                   [cls |-> "unknown-enum:lowercase", node |-> Bad(kind, "lower", "str", "short")],
+                   \* the prefix, something else, and a real option name at the end; the prefix twice; an option name
+                   \* followed by the zero value's; a real option name after something that is not the prefix
+                   [cls |-> "unknown-enum:prefix-x-option", node |-> Bad(kind, "ptail", "str", "short")],
+                   [cls |-> "unknown-enum:prefix-twice", node |-> Bad(kind, "pdouble", "str", "short")],
+                   [cls |-> "unknown-enum:option-unspecified", node |-> Bad(kind, "ptailzero", "str", "short")],
+                   [cls |-> "unknown-enum:x-option", node |-> Bad(kind, "tailonly", "str", "short")] }
       [] OTHER -> {BoolFault, NumFault, StrFault, [cls |-> "wrongtype:array", node |-> JArr(<<>>)]}   \* object oneof any
 
 \* the whole array / map replaced by a value of another JSON type
